@@ -199,6 +199,13 @@ class uamiv(ioapi_base):
 
     @classmethod
     def isMine(cls, path):
+        try:
+            return cls._checkheaders(path)
+        except Exception:
+            return False
+
+    @classmethod
+    def _checkheaders(cls, path):
         self = uamiv.__new__(uamiv)
         cls._make_header_fmt(self, '>')
         offset = 0
